@@ -64,6 +64,39 @@ let decode_pf (s : string) : K.pf_cfg =
     K.pc_universe = universe;
     K.pc_lenient = true }
 
+(* the tree of a flag-family case ("flg ..."): its raw files are read with the model's parser
+   (ToModel.reparse: syntax.ParseFile and the conversion to model directives).  [exact] is false
+   when a file parses but holds an include directive (not followed here) or fails in the
+   conversion only: format and infer work on the syntax tree, for them such a file is good *)
+let decode_tree_parsed (tree : string) : (K.z list list * K.LoaderM.fcontent) list * bool =
+  let exact = ref true in
+  let entries = List.filter_map (fun e ->
+    match String.split_on_char ':' e with
+    | [k; p; c] ->
+      let path = K.LoaderM.path_of_string (str_of_string (unhex p)) in
+      let content =
+        if k = "J" then K.LoaderM.FOk (decode_items (unhex c))
+        else if k = "F" then
+          (match K.ToModelM.reparse (str_of_string (unhex c)) with
+           | K.MOk ds ->
+             if List.exists (fun d -> d = K.SInclude) ds then exact := false;
+             K.LoaderM.FOk (List.map (fun d -> K.LoaderM.IDir d) ds)
+           | K.MErr k -> if string_of_str k <> "syntax" then exact := false; K.LoaderM.FBad
+           | K.MPanic _ -> exact := false; K.LoaderM.FBad)
+        else K.LoaderM.FBad in
+      Some (path, content)
+    | _ -> None) (fields tree) in
+  (entries, !exact)
+
+let command_of = function
+  | "check" -> Some K.FlagsM.CmdCheck | "balance" -> Some K.FlagsM.CmdBalance | "print" -> Some K.FlagsM.CmdPrint
+  | "format" -> Some K.FlagsM.CmdFormat | "infer" -> Some K.FlagsM.CmdInfer | "transcode" -> Some K.FlagsM.CmdTranscode
+  | "weights" -> Some K.FlagsM.CmdWeights | "returns" -> Some K.FlagsM.CmdReturns | _ -> None
+
+(* date.Today() as the default of --to: any day after the last day of the generated journals gives the
+   same report (the window is clipped to the journal's period); the model is given 9999-12-31 *)
+let today_z = Drv_c11.parse_date "9999-12-31"
+
 let string_of_pred = function K.CliSafeM.PredOK -> "OK" | K.CliSafeM.PredERR -> "ERR" | K.CliSafeM.PredPANIC -> "PANIC"
 
 let () =
@@ -99,7 +132,25 @@ let () =
            (if g "sig" <> "" then " " ^ g "sig" else "") ^
            (if cls = "ERR" then (if g "stderr_nonempty" <> "1" then " without a diagnostic on stderr" else " with output on stdout") else "") in
     let model =
-      if not predicted then "-"
+      if has "flg" then begin
+        (* the flag family: Model/Flags.v decides "usage error or not", Model/CliFlags.v runs the command *)
+        match command_of cmd with
+        | None -> "-"
+        | Some c ->
+          let (fs, exact) = decode_tree_parsed tree in
+          let root = (match fields tree with
+            | e :: _ -> (match String.split_on_char ':' e with [_; p; _] -> unhex p | _ -> "missing.knut")
+            | [] -> "missing.knut") in
+          let argv = List.map (fun h -> str_of_string (unhex h)) (fields (String.sub flags 3 (String.length flags - 3)))
+                     @ [str_of_string root] in
+          (match K.CliFlagsM.run_argv c today_z argv fs with
+           | K.CliFlagsM.ORejected _ -> "ERR"
+           | K.CliFlagsM.OHelp -> "OK"
+           | K.CliFlagsM.ONone -> "-"
+           | K.CliFlagsM.ORun p ->
+             if (not exact) && (cmd = "format" || cmd = "infer" || p = K.CliSafeM.PredOK) then "-" else string_of_pred p)
+      end
+      else if not predicted then "-"
       else begin
         let (fs, root) = decode_tree tree in
         (* repaired prediction; "|pinned" is appended where the unpatched code is predicted to
